@@ -2467,6 +2467,10 @@ func (data *Data) newShardGroup(rpi *RetentionPolicyInfo, timestamp time.Time, e
 		EngineType: engineType,
 		Version:    version,
 	}
+	if sgi.StartTime.Before(time.Unix(0, models.MinNanoTime)) {
+		// The start of the first window does not fit int64 nanoseconds (MarshalTime): cut it like the end.
+		sgi.StartTime = time.Unix(0, models.MinNanoTime).UTC()
+	}
 	if sgi.EndTime.After(time.Unix(0, models.MaxNanoTime)) {
 		// Shard group range is [start, end) so add one to the max time.
 		sgi.EndTime = time.Unix(0, models.MaxNanoTime+1)
@@ -2532,6 +2536,9 @@ func (data *Data) CreateIndexGroup(rpi *RetentionPolicyInfo, timestamp time.Time
 	igi.EndTime = igi.StartTime.Add(rpi.IndexGroupDuration).UTC()
 	if igi.EndTime.After(time.Unix(0, models.MaxNanoTime)) {
 		igi.EndTime = time.Unix(0, models.MaxNanoTime+1)
+	}
+	if igi.StartTime.Before(time.Unix(0, models.MinNanoTime)) {
+		igi.StartTime = time.Unix(0, models.MinNanoTime).UTC()
 	}
 	igi.EngineType = engineType
 	igi.Indexes = make([]IndexInfo, ptNum)
